@@ -5,5 +5,6 @@ export GOFLAGS=-mod=mod GOPROXY=off
 unset GOTOOLCHAIN GOSUMDB GONOSUMDB GONOSUMCHECK
 mkdir -p bin evidence replays
 go build -tags verif -o bin/raftmc ./cmd/raftmc || exit 1
+go test -c -tags verif -vet=off -o bin/nodex.test ./nodex || exit 1
 go vet -tags verif ./mc/ ./refmodel/ >/dev/null 2>&1
 echo "setup ok"
